@@ -339,6 +339,8 @@ class Interp:
                     obj, path = v.obj, v.path + (('slice', v),)
                 elif isinstance(v, Opaque) and v.kind == 'constptr':
                     obj = st.alloc(v.f['v']); path = ()
+                elif isinstance(v, Opaque) and v.kind in ('str', 'static'):
+                    obj = st.alloc(v); path = ()
                 elif isinstance(v, Opaque) and v.kind == 'box':
                     obj, path = v.f['obj'], ()
                 else:
@@ -1150,6 +1152,8 @@ class Interp:
         self.rec.loops.append(rec)
         k = X.fresh(X.USIZE, 'k', 0, None, loop=fn['key'])
         rec.qvar = (k, X.const(X.USIZE, 0), n)
+        from .resolve import register_range, deflatten_store
+        register_range(k, rec.qvar[1], n)
         hv = {}
         for l in sorted(L['assigned']):
             if l == itl or l == 0:
@@ -1197,6 +1201,10 @@ class Interp:
             seen.add(stv.seq)
             g = stv.pc[rec.pre_pc_len:] + stv.guard
             new = Store(stv.index, stv.value, g, stv.qvars + (rec.qvar,), stv.flat, ex.pc, stv.site)
+            if new.flat:
+                d = deflatten_store(self, ex.heap[o], new, rec.qvar)
+                if d is not None:
+                    new = d
             rec.stores.append((o, new))
             ex.heap[o] = ex.heap[o].with_store(new)
         self.check_interference(rec, ex)
